@@ -42,6 +42,82 @@ func loadsGlobal(fns []*ssa.Function, pkgSuffix, name string) (bool, ssa.Instruc
 }
 
 // returnsGlobal: some Return in fns has a result that is (a phi containing) a load of global name.
+// c11ClosedByHelper: rel (in fn) is dominated by the nil edge of a test of the
+// error result of a private helper h; every return of h that can yield nil lies
+// on the flag-clear edge of a test of the closed flag and after a store of true
+// into it; every other return yields a non-nil error.
+func c11ClosedByHelper(p *core.Prog, fn *ssa.Function, rel ssa.Instruction, closedF core.Field) (guard, sets bool) {
+	for _, ed := range dominatingEdges(rel) {
+		ci := core.Cond(ed.If.Cond)
+		if ci.Kind != "nilcmp" {
+			continue
+		}
+		truth := ed.Succ == 0
+		if ci.Negate {
+			truth = !truth
+		}
+		if (ci.Op == token.EQL) != truth {
+			continue // not the nil edge
+		}
+		call, ok := ci.X.(*ssa.Call)
+		if !ok {
+			continue
+		}
+		h := call.Common().StaticCallee()
+		if h == nil || len(h.Blocks) == 0 || !p.IsPrivateHelper(h) || h.Signature.Results().Len() != 1 {
+			continue
+		}
+		g, s, n := true, true, 0
+		for _, ret := range core.Returns(h) {
+			if h.Recover != nil && ret.Block() == h.Recover {
+				continue
+			}
+			mayNil := false
+			for _, lf := range valueLeaves(ret.Results[0], nil, 0) {
+				if c, isC := lf.V.(*ssa.Const); isC && c.IsNil() {
+					mayNil = true
+				}
+				switch y := lf.V.(type) {
+				case *ssa.Const, *ssa.MakeInterface:
+				case *ssa.Call:
+					if cn := core.CalleeName(y); cn != "errors.New" && cn != "fmt.Errorf" {
+						mayNil = true
+					}
+				default:
+					if _, isG := loadedGlobal(lf.V); !isG { // a package-level error sentinel
+						mayNil = true // not known to be an error value
+					}
+				}
+			}
+			if !mayNil {
+				continue
+			}
+			n++
+			onClear, stored := false, false
+			for _, he := range dominatingEdges(ret) {
+				cnd, succ := he.Norm()
+				if f, ok := core.LoadedField(cnd); ok && f == closedF && succ == 1 {
+					onClear = true
+				}
+			}
+			for _, b := range h.Blocks {
+				for _, in := range b.Instrs {
+					if st, ok := in.(*ssa.Store); ok && isConstBool(st.Val, true) {
+						if f, ok := core.FieldOf(st.Addr); ok && f == closedF && core.Dominates(st, ret) {
+							stored = true
+						}
+					}
+				}
+			}
+			g, s = g && onClear, s && stored
+		}
+		if n > 0 && (g || s) {
+			return g, s
+		}
+	}
+	return false, false
+}
+
 func returnsGlobal(fns []*ssa.Function, name string) (bool, ssa.Instruction) {
 	var has func(v ssa.Value, d int) bool
 	has = func(v ssa.Value, d int) bool {
@@ -62,19 +138,31 @@ func returnsGlobal(fns []*ssa.Function, name string) (bool, ssa.Instruction) {
 			}
 		case *ssa.Call:
 			// a module helper that maps / passes the error on
-			if cal := x.Common().StaticCallee(); cal != nil && len(cal.Blocks) > 0 && cal.Signature.Results().Len() == 1 {
-				for _, ret := range core.Returns(cal) {
-					if has(ret.Results[0], d+1) {
-						return true
+			cals := []*ssa.Function{x.Common().StaticCallee()}
+			if cals[0] == nil {
+				cals, _ = core.FuncValueCallees(x) // a local function variable: default implementation or callback
+			}
+			for _, cal := range cals {
+				if cal != nil && len(cal.Blocks) > 0 && cal.Signature.Results().Len() == 1 {
+					for _, ret := range core.Returns(cal) {
+						if has(ret.Results[0], d+1) {
+							return true
+						}
 					}
 				}
 			}
 		case *ssa.Extract:
 			if c, ok := x.Tuple.(*ssa.Call); ok {
-				if cal := c.Common().StaticCallee(); cal != nil && len(cal.Blocks) > 0 {
-					for _, ret := range core.Returns(cal) {
-						if x.Index < len(ret.Results) && has(ret.Results[x.Index], d+1) {
-							return true
+				cals := []*ssa.Function{c.Common().StaticCallee()}
+				if cals[0] == nil {
+					cals, _ = core.FuncValueCallees(c)
+				}
+				for _, cal := range cals {
+					if cal != nil && len(cal.Blocks) > 0 {
+						for _, ret := range core.Returns(cal) {
+							if x.Index < len(ret.Results) && has(ret.Results[x.Index], d+1) {
+								return true
+							}
 						}
 					}
 				}
@@ -117,6 +205,7 @@ func c11(r *core.Run) {
 	r.Rule("E1", "sentinels: Create can return store.ErrDuplicate on the exists edge; Update/Delete/Value can return the not-found sentinel; no method returns the raw badger.ErrKeyNotFound", 8)
 	r.Rule("E3", "existence is read, not assumed (badgerstore): in the transaction bodies of Update and Delete every database write is preceded on all paths by a read of the key (a call reaching Txn.Get) or by the edge on which the transaction's cached value is non-nil; the database itself accepts writes and deletes of missing keys", 2)
 	r.Rule("E4", "per-id operations are exact (badgerstore): no method of the read / write transaction (nor its private helpers and closures) opens an iterator or applies a prefix test; existence and values come from Txn.Get on the transaction's own key", 6)
+	r.Rule("K3", "a transaction's key is its own memory (shared with C16.O4): no key is built by appending to a slice kept in the store (append(st.prefixBytes, id...) handed to the transaction) - with spare capacity in that slice every open transaction's key is the same backing array, and opening a second transaction rewrites the key of the first: it then reads, writes and deletes another id's value while holding its own id's lock", 2)
 	r.Rule("E2", "empty id: Create tests the transaction id against \"\" before any write and on that edge returns an error or installs a generated id", 2)
 	r.Rule("C1", "change callbacks: on every nil return of Create/Update/Delete exactly one change fan-out ran, after the mutation succeeded (err==nil edge), with (txn id, before value read in the same transaction or nil, new value or nil); on every non-nil return none ran", 12)
 	r.Rule("C2", "veto and type: the dynamic type check dominates the database transaction; the before-change fan-out runs inside the update closure before the write and its error aborts the closure", 5)
@@ -204,6 +293,12 @@ func c11(r *core.Run) {
 						}
 					}
 				}
+				if !guard && !setFlag {
+					// the closed-flag protocol in a private helper (markClosed() error): the release sits
+					// on the helper's nil-result edge, and the helper returns nil only where the flag was
+					// clear and has been set
+					guard, setFlag = c11ClosedByHelper(p, fn, rel, closedF)
+				}
 				if len(rel.Common().Args) == 2 {
 					f, ok := core.LoadedField(rel.Common().Args[1])
 					keyOK = ok && f == idF
@@ -220,6 +315,7 @@ func c11(r *core.Run) {
 
 		// ---- K2 cache coherence -------------------------------------------
 		c11CacheCoherence(r, "K2", rel)
+		c16NoForeignAppend(r, "K3", []string{rel}, short)
 		val := methodNamed(p, rel, "readTxn", "Value")
 		muts := map[string]*ssa.Function{}
 		for _, n := range []string{"Create", "Update", "Delete"} {
@@ -1179,4 +1275,71 @@ func lastStoreInBlock(ld *ssa.UnOp) ssa.Value {
 		}
 	}
 	return nil
+}
+
+// c11FanoutAfterCommit (shared as C10.G2 / C13.K7): the change listeners of a
+// store mutation are called outside the transaction closure, i.e. after the
+// commit succeeded. Called inside the closure they would announce a value that
+// a failing commit (conflict) never stores.
+func c11FanoutAfterCommit(r *core.Run, rule, rel string) {
+	p := r.P
+	fan := fanoutFuncs(p, rel, "OnChange")
+	lf := listenerFieldOf(p, rel, "Store", "OnChange")
+	for _, n := range []string{"Create", "Update", "Delete"} {
+		m := methodNamed(p, rel, "writeTxn", n)
+		if m == nil {
+			r.Unres(rule, rel+".writeTxn."+n, "method missing")
+			continue
+		}
+		isFanout := func(in ssa.Instruction) bool {
+			if c, ok := in.(*ssa.Call); ok {
+				cal := c.Common().StaticCallee()
+				return cal != nil && fan[cal] && cal != m
+			}
+			if u, ok := in.(*ssa.UnOp); ok {
+				if f, ok := core.LoadedField(u); ok && f == lf && lf.Name != "" {
+					if u.Referrers() != nil {
+						for _, rf := range *u.Referrers() {
+							if _, isRange := rf.(*ssa.Range); isRange {
+								return true
+							}
+							if _, isIdx := rf.(*ssa.IndexAddr); isIdx {
+								return true
+							}
+						}
+					}
+				}
+			}
+			return false
+		}
+		inside, outside := "", 0
+		for _, f2 := range withAnon(m) {
+			for _, b := range f2.Blocks {
+				for _, in := range b.Instrs {
+					if !isFanout(in) {
+						continue
+					}
+					if f2 == m {
+						outside++
+					} else {
+						inside = p.InstrPos(in)
+					}
+				}
+			}
+		}
+		// the fan-out may also sit in a private helper of the method (not of the closure)
+		for _, h := range p.Helpers(m) {
+			if h == m {
+				continue
+			}
+			for _, b := range h.Blocks {
+				for _, in := range b.Instrs {
+					if isFanout(in) {
+						outside++
+					}
+				}
+			}
+		}
+		r.Check(inside == "" && outside > 0, rule, core.FuncName(m), "change-announced-after-commit", p.Pos(m.Pos()), "the change listeners are called by the method itself, after the transaction returned", "the change listeners are called inside the transaction closure ("+inside+") or not at all: a change is announced before the commit, also when the commit then fails (conflict) - listeners publish events and index a value that is not stored")
+	}
 }
